@@ -9,13 +9,17 @@ LEVEL = "exploration"
 SHARDS = {"quick": 1, "thorough": 16}
 DECO_KW = dict(n_pre=(0, 4), n_post=(0, 2), n_snap=(0, 2), n_wraps=(0, 2),
                err_forms=("default", "default", "class", "baseclass", "instance", "lambda", "def", "method"))
-HIER_KW = dict(n_classes=(1, 3), dag=False, with_invs=True, with_init=True, with_new=True)
+HIER_KW = dict(n_classes=(1, 4), dag=True, multi_root=True, with_invs=True, with_init=True, with_new=True)
 JUDGE = S.judge_c01
 KNOWN = {}
 
 
+HIER_KW_WIDE = dict(n_classes=(3, 6), dag=True, multi_root=True, with_invs=False, with_init=False)
+
+
 def strategy():
-    return st.one_of(D.st_function_case(DECO_KW), D.st_class_case(DECO_KW, HIER_KW), D.st_class_case(DECO_KW, HIER_KW))
+    return st.one_of(D.st_function_case(DECO_KW), D.st_class_case(DECO_KW, HIER_KW), D.st_class_case(DECO_KW, HIER_KW),
+                     D.st_class_case(dict(DECO_KW, n_pre=(0, 2), n_post=(0, 1), n_snap=(0, 0)), HIER_KW_WIDE))
 
 
 def exclude(ctx, case, model):
@@ -64,4 +68,9 @@ def nontrivial(case, truth, res, mask, n):
 
 
 def directed(ctx, only=None):
-    return None
+    """The enumerated two-base matrix of C04 (who provides the member with/without preconditions, in both orders),
+    judged with C01's projection."""
+    from vf.props import c04
+
+    for case in c04.multi_base_matrix():
+        D.run_one(ctx, case, JUDGE, nontrivial=nontrivial)
